@@ -190,6 +190,13 @@ def render(spec, allspecs=None):
         if v == 'forbidden' and i == 0:
             lines.append('%sBad OBJECT IDENTIFIER ::= { FALSE 1 }' % sym(name))
         lines.append('')
+    if spec.get('fakeidx'):
+        t = sym(name)
+        acc, st = ('ACCESS', 'mandatory') if spec.get('smiv1') else ('MAX-ACCESS', 'current')
+        lines += ['%sTable OBJECT-TYPE SYNTAX SEQUENCE OF %sEntry %s not-accessible STATUS %s DESCRIPTION "t" ::= { %s 50 }' % (t, t.capitalize(), acc, st, me),
+                  '%sEntry OBJECT-TYPE SYNTAX %sEntry %s not-accessible STATUS %s DESCRIPTION "e" INDEX { INTEGER } ::= { %sTable 1 }' % (t, t.capitalize(), acc, st, t),
+                  '%sEntry ::= SEQUENCE { %sCol INTEGER }' % (t.capitalize(), t),
+                  '%sCol OBJECT-TYPE SYNTAX INTEGER %s read-only STATUS %s DESCRIPTION "c" ::= { %sEntry 1 }' % (t, acc, st, t), '']
     if v in ('syntax', 'lex', 'forbidden') and not arcs:
         lines.append({'syntax': '%sx OBJECT IDENTIFIER { %s 1 }' % (me, me), 'lex': '@', 'forbidden': 'x OBJECT IDENTIFIER ::= { FALSE 1 }'}[v])
     if v == 'dupsym':
